@@ -4,6 +4,8 @@ Decided: keyword table, bang-operator table (+ scannability), first-character di
 punctuation table of Lexer::next_token, trivia-set agreement, directive table.
 Not decided (regular-language questions about the hand-written scanner loops): string escapes,
 nested block comments, maximal munch inside numbers/identifiers, digit-leading identifiers."""
+import re
+
 from .. import paths, ref
 from ..facts import Body, op_const
 from ..common import lexer_tables, LEXER, TOKENKIND
@@ -116,6 +118,7 @@ def run(ck, prog):
     ck.rule("R14.3", "next_token dispatch: reference punctuation spellings and token-class representatives reach the reference kind")
     ck.rule("R14.4", "TokenKind::is_trivia and SyntaxKind::is_trivia agree under From<TokenKind>")
     ck.rule("R14.5", "preprocessor directive table == reference directives")
+    ck.rule("R14.6", "integer lexemes are validated with a full-width unsigned parse (signed only behind a leading '-')")
 
     lx = lexer_tables(ck, prog)
     kw = lx["keywords"]
@@ -243,6 +246,9 @@ def run(ck, prog):
               nontrivial=a or b)
     ck.extra["token_to_syntax_rows"] = len(conv)
 
+    # R14.6 -----------------------------------------------------------------------
+    integer_width(ck, prog)
+
     # R14.5 -----------------------------------------------------------------------
     dirs = lx["directives"]
     for w, k in ref.PREPROCESSOR.items():
@@ -251,6 +257,64 @@ def run(ck, prog):
     for w in dirs:
         ck.ob("R14.5", "extra-directive:%s" % w, w in ref.PREPROCESSOR, nontrivial=False,
               msg="'#%s' is not a TableGen preprocessor directive" % w)
+
+
+def integer_width(ck, prog):
+    """R14.6: the parse that validates an integer lexeme accepts the whole 64-bit range: every radix/decimal parse
+    reachable from Lexer::number targets an unsigned 64-bit (or wider) integer, except a parse that runs only for
+    lexemes starting with `-`."""
+    from .. import cfg
+    nb = None
+    for p, b in prog.bodies.items():
+        if p.endswith("lexer::Lexer::<'a>::number") or p.endswith("lexer::Lexer::number"):
+            nb = b
+    ck.anchor(nb is not None, "Lexer::number not found")
+    todo = [nb]
+    seen = set()
+    sites = 0
+    while todo:
+        b = todo.pop()
+        if b.path in seen:
+            continue
+        seen.add(b.path)
+        dom = None
+        for i, t in b.calls():
+            c = Body.callee(t) or ""
+            cb = prog.body(c)
+            if cb is not None and cb.crate == b.crate and cb.path not in seen and "lexer" in cb.path:
+                todo.append(cb)
+            m = re.match(r"core::num::<impl (\w+)>::from_str_radix$", c)
+            ty = None
+            if m:
+                ty = m.group(1)
+            elif c == "core::str::<impl str>::parse":
+                ga = t["f"].get("args") or []
+                ty = ga[0].get("ty") if ga else None
+                if ty is not None and not re.match(r"[iu](8|16|32|64|128|size)$", ty):
+                    ty = None
+            if ty is None:
+                continue
+            sites += 1
+            ok = ty in ("u64", "u128")
+            why = "parses as %s" % ty
+            if not ok and ty in ("i64", "i128"):
+                # allowed only under a dominating `starts_with('-')` == true
+                if dom is None:
+                    dom = cfg.dominators(b)
+                for j, tt in b.calls():
+                    cc = Body.callee(tt) or ""
+                    if cc.endswith("str>::starts_with") and any((a.get("const") or {}).get("int") == 45 for a in tt["args"]):
+                        sw = b.term(tt["t"])
+                        if sw["k"] == "switch":
+                            false_t = [tg for v, tg in sw["arms"] if v == 0]
+                            true_t = sw["else"] if false_t else None
+                            if true_t is not None and true_t in dom[i] and true_t not in false_t:
+                                ok = True
+                                why = "parses as %s only for lexemes starting with '-'" % ty
+            ck.ob("R14.6", "int-parse:%s:%d" % (b.path.rsplit("::", 1)[-1], sites), ok, why,
+                  msg="%s validates an integer lexeme by parsing it as %s: hexadecimal/binary/decimal literals with bit 63 set "
+                      "(0x8000000000000000 ..) are reported as lexical errors [%s]" % (b.path, ty, b.where(i)))
+    ck.floor("R14.6", "integer parse sites reachable from Lexer::number", sites, 1)
 
 
 def token_to_syntax(prog, fb):
